@@ -533,6 +533,22 @@ func (g *PG) builtinCall(sc *scope, ty Ty, depth int) Val {
 		case "not", "true?", "nil?":
 			return Call(op, g.args(sc, depth, TyAny)...)
 		case "equal?":
+			if g.pct(25, "eqsame") {
+				// one and the same object on both sides: equality is structural,
+				// not identity -- NaN, bytes and functions are not equal to themselves
+				g.stat("equal-same-object")
+				v := rapid.SampledFrom([]Val{
+					L(S("-"), L(S("*"), F(1e308), I(10)), L(S("*"), F(1e308), I(10))),
+					Call("to-bytes", Str("ab")),
+					L(S("lambda"), L(S("x")), S("x")),
+					S("car"),
+					Call("list", I(1), Call("to-bytes", Str("a"))),
+					Call("list", I(1), L(S("-"), L(S("*"), F(1e308), I(10)), L(S("*"), F(1e308), I(10)))),
+					Call("list", I(1), I(2)),
+					Call("sorted-map", Str("a"), I(1)),
+				}).Draw(g.t, "samev")
+				return L(S("let"), L(L(S("same"), v)), Call("equal?", S("same"), S("same")))
+			}
 			t := Ty(g.n(0, 8, "eqty"))
 			return Call("equal?", g.args(sc, depth, t, t)...)
 		case "pred":
@@ -1140,6 +1156,19 @@ func (g *PG) higherOrder(sc *scope, ty Ty, depth int) Val {
 		}
 		return Call(op, f, g.Expr(sc, TyInt, depth-1), g.Expr(sc, TyList, depth-1))
 	case TyList:
+		if g.pct(25, "loop-closures") {
+			// closures made in the turns of a dotimes share the loop variable:
+			// called after the loop they see its final value, with or without
+			// a result form
+			g.stat("dotimes-closures-called-after-loop")
+			ctrl := []Val{S("i"), I(int64(g.n(0, 4, "cturns")))}
+			if g.pct(40, "cresult") {
+				ctrl = append(ctrl, S("i"))
+			}
+			return L(S("let"), L(L(S("fs"), L())),
+				L(S("dotimes"), L(ctrl...), L(S("set!"), S("fs"), Call("cons", L(S("lambda"), L(), S("i")), S("fs")))),
+				Call("map", QS("list"), L(S("lambda"), L(S("f")), Call("funcall", S("f"))), S("fs")))
+		}
 		return Call("map", QS("list"), g.mapFn(sc, depth), g.Expr(sc, TyList, depth-1))
 	default:
 		return g.builtinCall(sc, ty, depth)
